@@ -11,6 +11,8 @@ META = {
     "trusted": ["ruint checked_* semantics", "core::fmt zero padding"],
 }
 
+from flow import prep, op_local, Taint, callee_matches  # noqa: E402
+
 AMT = "ant_evm::amount::"
 DISPLAY = "<ant_evm::amount::AttoTokens as core::fmt::Display>::fmt"
 FROM_STR = "<ant_evm::amount::AttoTokens as core::str::traits::FromStr>::from_str"
@@ -55,7 +57,7 @@ def run(R):
                 width_ok = (w == power) or (isinstance(w, dict) and "TOKEN_TO_RAW_POWER_OF_10_CONVERSION" in f["args"][w["arg"]]["src"])
                 unit_plain = phs[0]["width"] is None and phs[0]["precision"] is None
                 if width_ok and frac["zero_pad"] and frac["precision"] is None and frac["trait"] == "Display" and unit_plain \
-                        and f["args"][frac["arg"]]["name"] != f["args"][phs[0]["arg"]]["name"]:
+                        and frac["arg"] != phs[0]["arg"] and f["args"][frac["arg"]]["src"] != f["args"][phs[0]["arg"]]["src"]:
                     ok = True
                 else:
                     R.viol("C16.width", "fraction-width", "fractional part is formatted with width=%s zero_pad=%s but the amount has %d decimals"
@@ -69,7 +71,17 @@ def run(R):
         has_rem = any(k.endswith("<impl core::ops::arith::Rem for ruint::Uint<BITS, LIMBS>>::rem") for k in calls)
         convs = [c for c in disp.calls if c["ncallee"].endswith("ruint::Uint<BITS, LIMBS>>::from") and
                  any("TOKEN_TO_RAW_CONVERSION" in k[1] and "POWER" not in k[1] for k in c["consts"])]
-        ok2 = has_div and has_rem and len(convs) >= 2
+        ok2 = has_div and has_rem and len(convs) >= 1
+        if ok2:
+            # both the quotient and the remainder are taken by that conversion constant (computed once or twice)
+            prep(disp)
+            cv = Taint(disp, through="all").closure({b["term"]["d"][0] for b in disp.blocks if b["term"]["k"] == "call" and not b["cleanup"] and (b["term"]["ncallee"] or "").endswith("ruint::Uint<BITS, LIMBS>>::from")
+                                                    and any(a[0] == "c" and "TOKEN_TO_RAW_CONVERSION" in a[1] and "POWER" not in a[1] for a in b["term"]["args"])})
+            for blk in disp.blocks:
+                t = blk["term"]
+                if t["k"] == "call" and not blk["cleanup"] and (t["ncallee"] or "").endswith(("Div for ruint::Uint<BITS, LIMBS>>::div", "Rem for ruint::Uint<BITS, LIMBS>>::rem")):
+                    if op_local(t["args"][1]) not in cv:
+                        ok2 = False
         if not ok2:
             R.viol("C16.divrem", "divrem", "Display does not compute unit/remainder as Div and Rem by TOKEN_TO_RAW_CONVERSION", disp, disp.lines[0])
         R.inst("C16.divrem", "K6 provenance", "unit = amount / CONVERSION, remainder = amount % CONVERSION", len(convs), ok2)
@@ -85,7 +97,19 @@ def run(R):
     # from_str combines units and remainder with checked ops
     R.must_call("C16.parse.checked_mul", FROM_STR, ["*ruint::Uint::checked_mul", "*<impl ruint::Uint<BITS, LIMBS>>::checked_mul"], "units scaled with checked_mul")
     R.must_call("C16.parse.checked_add", FROM_STR, ["*ruint::Uint::checked_add", "*<impl ruint::Uint<BITS, LIMBS>>::checked_add"], "units + remainder with checked_add")
-    R.must_call("C16.parse.checked_sub", FROM_STR, ["core::num::<impl u64>::checked_sub"], "18 - len(fraction) with checked_sub (LossOfPrecision)")
+    # 18 - len(fraction): through checked_sub, or a plain subtraction behind `18 < len → LossOfPrecision` (then the K8 rule below has
+    # discharged its overflow assert by the dominating comparison)
+    from flow import callee_matches
+    fs_bodies = F.item(FROM_STR)
+    has_checked = any(callee_matches(c, ["core::num::<impl u64>::checked_sub"]) for b in fs_bodies for c in b.calls)
+    ok_sub = has_checked
+    if not has_checked:
+        import panics as PN
+        subs = [(b, a_) for b in fs_bodies for a_ in PN.panic_sites(F, b) if a_["kind"].startswith("assert:Overflow(Sub")]
+        ok_sub = bool(subs) and all(PN.sub_guarded(F, b, a_)[0] for b, a_ in subs)
+    if not ok_sub:
+        R.viol("C16.parse.checked_sub", "missing-call:from_str!checked_sub", "from_str computes 18 - len(fraction) neither with checked_sub nor behind a comparison that refuses a longer fraction (LossOfPrecision)", fs_bodies[0] if fs_bodies else None, fs_bodies[0].lines[0] if fs_bodies else None)
+    R.inst("C16.parse.checked_sub", "K1 must-call", "18 - len(fraction) cannot underflow (checked_sub, or guarded subtraction)", 1, ok_sub)
     decimal_only(R)
     whole_input(R)
     # (3) delegation
@@ -131,7 +155,10 @@ def decimal_only(R):
                     return True
             return False
         gd = CallGuard(["*core::iter::traits::iterator::Iterator>::all", "core::iter::traits::iterator::Iterator::all"], ("true",), "all characters are ASCII digits", arg_pred=digits_pred)
-        if not R.gate("C16.parse.digits", body, CallSink("*::from_str_radix"), [[gd]], descr="from_str_radix only on a string of ASCII digits (it skips `_`)"):
+        # the same test as an explicit loop over the characters
+        from rules import ForallGuard
+        gd_loop = ForallGuard(None, ["*::is_ascii_digit"], ("true",), "every character passed is_ascii_digit", source_calls=["core::str::<impl str>::bytes", "core::str::<impl str>::chars"])
+        if not R.gate("C16.parse.digits", body, CallSink("*::from_str_radix"), [[gd, gd_loop]], descr="from_str_radix only on a string of ASCII digits (it skips `_`)"):
             ok = False
     R.inst("C16.parse.decimal", "K1 forbidden-callee", "amount parts are parsed as decimal digits only (no ruint FromStr; from_str_radix(_, 10))", len(radix_sites) + len(lax), ok)
 
@@ -169,7 +196,15 @@ def whole_input(R):
                          and op_local(b2["term"]["args"][0]) in its
                          and (b2["term"].get("ngen") or b2["term"].get("ncallee") or "").split("::")[-1] in ("next", "take_while", "skip_while", "map_while", "position", "find", "nth", "skip", "take", "peekable")]
             if piecewise:
-                unbounded.append(t)
+                # … and only when the pieces are used for more than a per-character test (`for b in s.bytes() { if !b.is_ascii_digit() … }` is
+                # the digits test written as a loop)
+                nxt = [b2["term"]["d"][0] for b2 in piecewise if (b2["term"].get("ngen") or "").endswith("Iterator::next") and len(b2["term"].get("d") or []) == 1]
+                elems = Taint(body, through="all").closure(set(nxt)) if nxt else set()
+                TESTS = ("is_ascii_digit", "is_ascii_alphanumeric", "is_ascii_alphabetic", "is_ascii_hexdigit", "is_digit", "is_numeric", "::eq", "::ne")
+                used = [b2 for b2 in body.blocks if b2["term"]["k"] == "call" and not b2["cleanup"] and any(op_local(a) in elems for a in b2["term"]["args"])
+                        and not (b2["term"].get("ngen") or b2["term"].get("ncallee") or "").endswith(TESTS) and b2 not in piecewise]
+                if used or not nxt:
+                    unbounded.append(t)
     ok = bool(bounded or unbounded)
     if not ok:
         R.viol("C16.parse.whole", "anchor-missing:split", "from_str: no split of the input into integer and fraction found", body, body.lines[0])
